@@ -450,8 +450,6 @@ Proof.
 Qed.
 
 (* after the request the flusher is never blocked until it has acknowledged *)
-Definition flusher_label (l : label) : Prop :=
-  match l with PollTake _ | PollEmpty | InnerTake _ | InnerSync | DrainTake _ | DrainDone => True | _ => False end.
 Theorem flusher_not_blocked_after_request cap s :
   req s = true -> fp s <> Done -> exists l s', flusher_label l /\ step cap s l = Some s'.
 Proof.
@@ -901,3 +899,84 @@ Example logged_after_ack_witness :
                         FlushRet true; LogCall e01; Enq 0; LogRet e01] = Some s
             /\ fp s = Done /\ q s = [e01] /\ written s = [e00] /\ retd s = [e01; e00].
 Proof. eexists. vm_compute. repeat split. Qed.
+
+(* ---------- bounded progress: how many flusher steps the flush needs ---------- *)
+
+Definition pending (s : st) : nat := (length (pre_req s) - length (written s))%nat.
+Definition weight (s : st) : nat := (pending s + match fp s with Top | Inner => 1 | _ => 0 end)%nat.
+
+Lemma prefix_length a b : prefix a b -> (length a <= length b)%nat.
+Proof. intros [c ->]. rewrite app_length. lia. Qed.
+Lemma prefix_of_shorter a b l : prefix a l -> prefix b l -> (length a <= length b)%nat -> prefix a b.
+Proof.
+  intros Ha Hb L. destruct (prefix_comparable _ _ _ Ha Hb) as [P | [c Hc]]; [exact P|].
+  subst a. rewrite app_length in L. destruct c; [rewrite app_nil_r; apply prefix_refl | cbn in L; lia].
+Qed.
+
+Lemma step_weight cap s l s' : Inv s -> req s = true -> step cap s l = Some s' ->
+  pre_req s' = pre_req s /\ req s' = true /\
+  (pending s' = 0%nat \/ (weight s' + (if is_flusher l then 1 else 0) <= weight s)%nat).
+Proof.
+  intros I R Hs.
+  assert (E : q s = [] -> pending s = 0%nat).
+  { intros Q. unfold pending. pose proof (i_req_pre _ I R) as P. rewrite (i_hist _ I), Q, app_nil_r in P.
+    apply prefix_length in P. lia. }
+  assert (F : fl s <> FCalled). { intros X. apply (i_fl_req _ I) in R. rewrite X in R. destruct R as [Y | [b Y]]; discriminate. }
+  destruct l; unfold step, gstep, take in Hs; unfold weight in *; destruct (fp s) eqn:P; cbn in Hs.
+  all: repeat match type of Hs with
+       | context [match ?x with _ => _ end] => destruct x eqn:?; try discriminate
+       | context [if ?x then _ else _] => destruct x eqn:?; try discriminate
+       end; try congruence; inversion Hs; subst; clear Hs; unfold weight, pending in *; cbn in *;
+       (split; [reflexivity | split; [assumption || reflexivity |]]);
+       rewrite ?app_length; cbn;
+       try (right; lia);
+       try (left; specialize (E eq_refl); lia).
+  all: destruct (length (pre_req s) - length (written s))%nat eqn:D; [left; lia | right; lia].
+Qed.
+
+Lemma run_weight cap ls : forall s s', Inv s -> req s = true -> run cap s ls = Some s' ->
+  pre_req s' = pre_req s /\ (pending s' = 0%nat \/ (weight s' + flusher_steps ls <= weight s)%nat).
+Proof.
+  induction ls as [|l ls IH]; intros s s' I R Hr. { inversion Hr; subst. split; [reflexivity | right; cbn; lia]. }
+  rewrite run_cons in Hr. destruct (step cap s l) as [m|] eqn:E; [|discriminate].
+  destruct (step_weight _ _ _ _ I R E) as (P & R' & W). pose proof (Inv_step _ _ _ _ I E) as I'.
+  destruct (IH _ _ I' R' Hr) as (P' & W'). split; [congruence|].
+  destruct W' as [W' | W']; [now left|]. destruct W as [W | W].
+  - left. destruct (run_ghost _ _ _ _ Hr) as (Wr & _ & _). unfold pending in *. rewrite P', Wr, app_length. lia.
+  - right. cbn [flusher_steps]. lia.
+Qed.
+
+(* Once FlushLogger has signalled, [length of the queue at that moment + 1] steps of the flusher suffice to hand every
+   entry whose call had returned to its writer — however many entries other goroutines log meanwhile. (Whether that
+   fits into FlushLogger's one second depends on the scheduler and on the writers: not modelled.) *)
+Theorem flush_bounded cap l1 l2 s1 s2 s :
+  run cap init l1 = Some s1 -> step cap s1 Request = Some s2 -> run cap s2 l2 = Some s ->
+  (length (q s1) + 1 <= flusher_steps l2)%nat ->
+  forall e, In e (rets_of l1) -> In e (writes_of (l1 ++ Request :: l2)).
+Proof.
+  intros R1 S2 R2 L e He.
+  pose proof (reach_inv _ _ _ R1) as I1. pose proof (Inv_step _ _ _ _ I1 S2) as I2.
+  assert (X : req s2 = true /\ pre_req s2 = hist s1 /\ written s2 = written s1 /\ fp s2 = fp s1 /\ q s2 = q s1).
+  { unfold step, gstep in S2. destruct (fl s1); try discriminate. inversion S2; subst; cbn. repeat split. }
+  destruct X as (Rq & Pr & Wr & Fp & Qq).
+  destruct (run_weight _ _ _ _ I2 Rq R2) as (P & W).
+  assert (W2 : (weight s2 <= length (q s1) + 1)%nat).
+  { unfold weight, pending. rewrite Pr, Wr, Fp, (i_hist _ I1), app_length. destruct (fp s1); lia. }
+  assert (P0 : pending s = 0%nat) by (destruct W as [W | W]; [exact W | unfold weight in W at 1; lia]).
+  pose proof (run_inv _ _ _ _ I2 R2) as I.
+  assert (Rs : req s = true).
+  { clear -R2 Rq I2. revert s2 Rq I2 R2. induction l2 as [|l l2 IH]; intros s2 Rq I2 R2.
+    - inversion R2; subst; auto.
+    - rewrite run_cons in R2. destruct (step cap s2 l) as [m|] eqn:E; [|discriminate].
+      destruct (step_weight _ _ _ _ I2 Rq E) as (_ & R' & _). apply (IH m R' (Inv_step _ _ _ _ I2 E) R2). }
+  assert (PW : prefix (pre_req s) (written s)).
+  { apply (prefix_of_shorter _ _ (hist s)); [apply (i_req_pre _ I Rs) | rewrite (i_hist _ I); now exists (q s) | unfold pending in P0; lia]. }
+  assert (R12 : run cap init (l1 ++ Request :: l2) = Some s) by (rewrite run_app, R1, run_cons, S2; exact R2).
+  destruct (run_init_ghost _ _ _ R12) as [<- _]. apply (prefix_incl _ _ PW). rewrite P, Pr.
+  apply (i_retd _ I1). destruct (run_init_ghost _ _ _ R1) as [_ ->]. apply in_rev in He. exact He.
+Qed.
+
+Example flush_bounded_instance :
+  exists s1 s2 s, run 4 init (firstn 12 sched_fixed) = Some s1 /\ step 4 s1 Request = Some s2 /\
+    run 4 s2 (skipn 13 sched_fixed) = Some s /\ length (q s1) = 2%nat /\ flusher_steps (skipn 13 sched_fixed) = 4%nat.
+Proof. do 3 eexists. vm_compute. repeat split. Qed.
